@@ -843,7 +843,13 @@ static carquet_status_t load_next_page_mmap(
         }
     }
 
-    if (page_header.type != CARQUET_PAGE_DATA && page_header.type != CARQUET_PAGE_DATA_V2) {
+    if (page_header.type == CARQUET_PAGE_DATA_V2) {
+        /* v2 pages keep their levels outside the compressed body and without
+         * length prefixes; decoding them as v1 returns wrong values. */
+        CARQUET_SET_ERROR(error, CARQUET_ERROR_NOT_IMPLEMENTED, "Data page v2 is not supported");
+        return CARQUET_ERROR_NOT_IMPLEMENTED;
+    }
+    if (page_header.type != CARQUET_PAGE_DATA) {
         CARQUET_SET_ERROR(error, CARQUET_ERROR_INVALID_PAGE, "Expected data page");
         return CARQUET_ERROR_INVALID_PAGE;
     }
@@ -1081,7 +1087,13 @@ static carquet_status_t load_next_page_fread(
         }
     }
 
-    if (page_header.type != CARQUET_PAGE_DATA && page_header.type != CARQUET_PAGE_DATA_V2) {
+    if (page_header.type == CARQUET_PAGE_DATA_V2) {
+        /* v2 pages keep their levels outside the compressed body and without
+         * length prefixes; decoding them as v1 returns wrong values. */
+        CARQUET_SET_ERROR(error, CARQUET_ERROR_NOT_IMPLEMENTED, "Data page v2 is not supported");
+        return CARQUET_ERROR_NOT_IMPLEMENTED;
+    }
+    if (page_header.type != CARQUET_PAGE_DATA) {
         CARQUET_SET_ERROR(error, CARQUET_ERROR_INVALID_PAGE, "Expected data page");
         return CARQUET_ERROR_INVALID_PAGE;
     }
